@@ -12,6 +12,7 @@ import (
 	"testing"
 	"time"
 
+	"github.com/tychoish/fun"
 	"github.com/tychoish/fun/pubsub"
 	"pgregory.net/rapid"
 
@@ -23,7 +24,7 @@ func TestMain(m *testing.M) { vkit.Main(m) }
 const tProg = "TestBrokerProgressAndShutdown"
 
 type Case struct {
-	Backend    string `json:"backend"` // channel | queue | deque | queue-bounded | lifo | queue-filtered
+	Backend    string `json:"backend"` // channel | queue | deque | queue-bounded | lifo | queue-filtered | queue-shared | chan-shedding
 	Capacity   int    `json:"capacity,omitempty"`
 	Parallel   bool   `json:"parallel_dispatch"`
 	Workers    int    `json:"worker_pool_size"`
@@ -59,26 +60,70 @@ func (c *Case) wanted(n int) int {
 
 func (c *Case) buffersBackend() bool { return c.Backend != "channel" }
 
-func mkBroker(ctx context.Context, c *Case) *pubsub.Broker[int] {
+// mkBroker builds the broker of the case.  The second result, when not nil,
+// releases what the back-end holds besides the broker (the competing
+// consumer of a shared queue); it runs after the shutdown checks.
+func mkBroker(ctx context.Context, c *Case) (*pubsub.Broker[int], func()) {
+	b, release := mkBackend(ctx, c)
+	return b, release
+}
+
+func mkBackend(ctx context.Context, c *Case) (*pubsub.Broker[int], func()) {
 	opts := pubsub.BrokerOptions{ParallelDispatch: c.Parallel, WorkerPoolSize: c.Workers, BufferSize: c.BufferSize}
 	switch c.Backend {
 	case "channel":
-		return pubsub.NewBroker[int](ctx, opts)
+		return pubsub.NewBroker[int](ctx, opts), nil
 	case "queue":
-		return pubsub.NewQueueBroker[int](ctx, pubsub.NewUnlimitedQueue[int](), opts)
+		return pubsub.NewQueueBroker[int](ctx, pubsub.NewUnlimitedQueue[int](), opts), nil
 	case "deque":
-		return pubsub.NewDequeBroker[int](ctx, pubsub.NewUnlimitedDeque[int](), opts)
+		return pubsub.NewDequeBroker[int](ctx, pubsub.NewUnlimitedDeque[int](), opts), nil
 	case "queue-bounded":
 		q, err := pubsub.NewQueue[int](pubsub.QueueOptions{HardLimit: c.Capacity, SoftQuota: c.Capacity})
 		if err != nil {
 			panic(err)
 		}
-		return pubsub.NewQueueBroker[int](ctx, q, opts)
+		return pubsub.NewQueueBroker[int](ctx, q, opts), nil
 	case "queue-filtered":
 		// a distributor that drops every third message on the way out
-		return pubsub.MakeDistributorBroker[int](ctx, pubsub.NewUnlimitedQueue[int]().Distributor().WithOutputFilter(passes), opts)
+		return pubsub.MakeDistributorBroker[int](ctx, pubsub.NewUnlimitedQueue[int]().Distributor().WithOutputFilter(passes), opts), nil
+	case "queue-shared":
+		// the broker is one of two consumers of a queue: an application
+		// goroutine with a context of its own is parked in Queue.Wait
+		// before the broker's workers are.  It takes part of the
+		// traffic (the broker is not lossless for its subscribers), and
+		// the broker must still make progress and shut down on its own.
+		q := pubsub.NewUnlimitedQueue[int]()
+		cctx, ccancel := context.WithCancel(context.Background())
+		done := make(chan struct{})
+		go func() {
+			defer close(done)
+			for {
+				if _, err := q.Wait(cctx); err != nil {
+					return
+				}
+			}
+		}()
+		vkit.Eventually(vkit.Limit(), func() bool {
+			return vkit.CountWhere("fun/pubsub.(*Queue[...]).Wait", "sync.(*Cond).Wait") > 0
+		})
+		return pubsub.NewQueueBroker[int](ctx, q, opts), func() {
+			// bounded: a consumer that is not woken by the end of its
+			// context shows up in the goroutine check of the case
+			ccancel()
+			select {
+			case <-done:
+			case <-time.After(vkit.Limit()):
+			}
+		}
+	case "chan-shedding":
+		// a user-built distributor over a buffered channel whose Send
+		// never blocks: when the buffer is full the message is shed
+		// (ErrNonBlockingChannelOperationSkipped, a transient error)
+		ch := fun.Blocking(make(chan int, c.Capacity))
+		d := pubsub.MakeDistributor(ch.NonBlocking().Send().Processor(), ch.Receive().Producer(), ch.Len)
+		return pubsub.MakeDistributorBroker[int](ctx, d, opts), nil
 	default:
-		return pubsub.NewLIFOBroker[int](ctx, opts, c.Capacity)
+		return pubsub.NewLIFOBroker[int](ctx, opts, c.Capacity), nil
 	}
 }
 
@@ -121,7 +166,10 @@ func runCase(c *Case) (string, string) {
 		dctx := newExpiringContext(parent)
 		parent, expire = dctx, dctx.expire
 	}
-	b := mkBroker(parent, c)
+	b, release := mkBroker(parent, c)
+	if release != nil {
+		defer release()
+	}
 	ctx := context.Background()
 	// a Publish on a stopped broker only returns through its own context
 	pubCtx, cancelPub := context.WithCancel(ctx)
@@ -327,6 +375,10 @@ func runCase(c *Case) (string, string) {
 	}
 	close(stopReaders)
 	rwg.Wait()
+	if release != nil {
+		release()
+		release = nil
+	}
 	var left []string
 	if !vkit.Eventually(limit, func() bool { left = brokerGoroutines(); return len(left) == 0 }) {
 		return "leak", fmt.Sprintf("%d broker goroutines are still alive after shutdown:\n%s", len(left), strings.Join(left, "\n--\n"))
@@ -336,7 +388,7 @@ func runCase(c *Case) (string, string) {
 
 func genCase(t *rapid.T) *Case {
 	c := &Case{
-		Backend:    rapid.SampledFrom([]string{"channel", "queue", "deque", "deque", "queue-bounded", "lifo", "queue-filtered"}).Draw(t, "backend"),
+		Backend:    rapid.SampledFrom([]string{"channel", "queue", "deque", "deque", "queue-bounded", "lifo", "queue-filtered", "queue-shared", "chan-shedding"}).Draw(t, "backend"),
 		Capacity:   rapid.IntRange(1, 4).Draw(t, "capacity"),
 		Parallel:   rapid.Bool().Draw(t, "parallel"),
 		Workers:    rapid.IntRange(0, 3).Draw(t, "workers"),
